@@ -838,6 +838,34 @@ fn memcheck_sample(rep: &Report, seed: u64) {
     scn::cleanup(&dir, false);
 }
 
+/// AddressSanitizer slice (both tiers): the catalogue of hostile archives through the CLI
+/// built with -Zsanitizer=address (Rust code and the bundled zstd C code instrumented).
+/// The dev-profile engines above judge panics, aborts and resource use; this one adds
+/// "no invalid memory access in the decoders and buffer code the hostile bytes reach".
+fn asan_slice(rep: &Report, seed: u64, tier: Tier) {
+    use super::asan::{self, Surf};
+    let mut rng = Rng::new(seed).fork(0x15a1);
+    let mut hostile = field_mutations(&mut rng);
+    if tier == Tier::Thorough {
+        hostile.extend(field_mutations(&mut rng));
+    }
+    hostile.extend(raw_inputs(&mut rng, tier.pick(80, 1500)));
+    // Archives that make bita allocate gigabytes (the known finding K1 and its relatives) are
+    // judged by the engines that run under exact address-space limits; the sanitizer
+    // runtime cannot run under such a limit, so they are left out here.
+    let inputs: Vec<(String, Vec<u8>)> = hostile
+        .into_iter()
+        .filter(|h| !h.class.contains("u32max") && h.declared <= (256 << 20) && h.bytes.len() <= (4 << 20))
+        .map(|h| (h.class, h.bytes))
+        .collect();
+    rep.count("asan.inputs", inputs.len() as u64);
+    let surfaces: &[Surf] = match tier {
+        Tier::Quick => &[Surf::Clone, Surf::CloneSeed],
+        Tier::Thorough => &[Surf::Info, Surf::Clone, Surf::CloneSeed, Surf::CloneInPlace],
+    };
+    asan::hostile_slice(rep, "C15", &inputs, surfaces, seed, 4);
+}
+
 pub fn run(tier: Tier, seed: u64) -> i32 {
     let rep = Report::new("C15", "exploration", tier, seed);
     // Self-test: the encoder's unmutated archives must be accepted by the real reader,
@@ -862,6 +890,7 @@ pub fn run(tier: Tier, seed: u64) -> i32 {
     if tier == Tier::Thorough {
         memcheck_sample(&rep, seed);
     }
+    asan_slice(&rep, seed, tier);
     if rep.seen_count("mutation_classes") < 50 {
         rep.broken("mutation catalogue did not run".into());
     }
@@ -879,6 +908,9 @@ pub fn run(tier: Tier, seed: u64) -> i32 {
 pub fn replay(v: &Value) -> i32 {
     let r = &v["replay"];
     let engine = r["engine"].as_str().unwrap_or("");
+    if engine == "asan" {
+        return super::asan::replay_hostile("C15", r);
+    }
     if engine == "library" {
         let bytes = crate::util::unhex(r["archive_hex"].as_str().unwrap_or(""));
         // run in a worker so that an abort does not kill the replay driver
